@@ -72,10 +72,13 @@ impl SchedulerCore {
         // Now claim the queue
         let mut queue_core  = queue.core.lock().expect("Queue lock");
 
-        // The queue must be idle or pending to be claimable
+        // The queue must be idle or pending to be claimable. A queue that is waiting for a future to poll it can also be taken over:
+        // that future might never be polled again (it may even have been dropped), and the pool threads are allowed to take such
+        // a queue in the same way (see next_to_run())
         match queue_core.state {
-            QueueState::Pending |
-            QueueState::Idle    => {
+            QueueState::Pending             |
+            QueueState::WaitingForPoll(_)   |
+            QueueState::Idle                => {
                 // Move the queue to the running state
                 queue_core.state = QueueState::Running;
 
